@@ -218,7 +218,7 @@ pub fn run(ctx: &mut Ctx) {
     ctx.rec.note("grid_size", &grid.to_string());
     ctx.rec.checkpoint();
     // beyond the exhaustive grid: deep stacks (up to 60) with random indices around the depth
-    let nrand = ctx.n(60000, 2000000);
+    let nrand = ctx.n(60000, 6000000);
     for k in 0..nrand as u64 {
         case += 1;
         if !ctx.mine(case) {
